@@ -28,6 +28,8 @@ func main() {
 	replay := flag.String("replay", "", "replay file to execute")
 	known := flag.String("known", "", "file with known finding signatures, one per line")
 	list := flag.Bool("list", false, "list scenarios")
+	hashes := flag.Bool("hashes", false, "record the trace hash of every run (determinism self-test)")
+	nosweep := flag.Bool("nosweep", false, "skip the systematic sweep")
 	flag.Parse()
 	if *list {
 		var names []string
@@ -91,7 +93,7 @@ func main() {
 		Seed:     *seed,
 		Worker:   *worker,
 		Workers:  *workers,
-		Duration: *dur, MaxRuns: *maxRuns, ShrinkFor: *shrinkFor, MaxViol: 3,
+		Duration: *dur, MaxRuns: *maxRuns, ShrinkFor: *shrinkFor, MaxViol: 3, Hashes: *hashes, NoSweep: *nosweep,
 	})
 	b, _ := json.MarshalIndent(rep, "", " ")
 	if *out != "" {
